@@ -344,4 +344,7 @@ def run(repo: Repo, rep: Report, tier: str) -> None:
     # T(v) for a value v of type T builds a new object: handing v back makes two names for one mutable value
     meta_call_rule(repo, rep, "C14.R11")
     caller_objects_rule(repo, rep, "C14.R12")
+    from .c11 import union_life_rule
+
+    union_life_rule(repo, rep, "C14.R13")
     share_rules(repo, rep, tier, "c15", {"C15.R5": "C14.R10"}, "a descriptor or accessor that keeps per-call state on itself is state shared by every object of every cstruct")
